@@ -5,6 +5,7 @@ from __future__ import annotations
 from inspect import isawaitable
 from typing import TYPE_CHECKING, Any
 
+from hypergraph.nodes._rename import build_reverse_rename_map
 from hypergraph.nodes.base import _EMIT_SENTINEL
 from hypergraph.runners._shared.types import PauseExecution, PauseInfo
 from hypergraph.runners.async_.superstep import get_concurrency_limiter
@@ -88,6 +89,13 @@ def _normalize_response(
     if not data_outputs:
         return {}
     if len(data_outputs) > 1 and isinstance(response, dict):
+        # The handler answers under the output names it was written with; the
+        # node may have been renamed since (with_outputs), so translate them to
+        # the current names - position-independent, like a function node's tuple.
+        reverse = build_reverse_rename_map(node._rename_history, "outputs")
+        written_as = {current: reverse.get(current, current) for current in data_outputs}
+        if set(response.keys()) == set(written_as.values()):
+            return {current: response[original] for current, original in written_as.items()}
         expected_keys = set(data_outputs)
         actual_keys = set(response.keys())
         if actual_keys != expected_keys:
